@@ -1,9 +1,9 @@
 #!/bin/bash
-# tools/confirm_seed.sh <ID> <n> [srcdir]: confirm a seeded change independently in a fresh scratch worktree:
+# tools/confirm_seed.sh <ID> <n> [srcdir [keep-as-n]]: confirm a seeded change independently in a fresh scratch worktree:
 #  - patch applies, the 46 baseline tests still pass with it,
 #  - the demonstration fails with the patch and passes without it.
 # On success the change is kept as /verif/seeded/<ID>-<n>/ (patch.diff, demo.py, meta.json).
-ID="$1"; N="$2"; SRC="${3:-/tmp/seed/out/$ID}"
+ID="$1"; N="$2"; SRC="${3:-/tmp/seed/out/$ID}"; DN="${4:-$N}"   # DN: number under which the change is kept
 WT="$(mktemp -d /tmp/confirm-$ID-$N.XXXXXX)"; rmdir "$WT"
 LOG="/tmp/confirm-$ID-$N.log"; : > "$LOG"
 cleanup() { git -C /repo worktree remove --force "$WT" >/dev/null 2>&1; rm -rf "$WT"; }
@@ -22,7 +22,7 @@ FAILED=$(echo "$OUT" | grep -oE "[0-9]+ failed" | grep -oE "[0-9]+")
 FAILNAMES=$(echo "$OUT" | grep -E "^FAILED" | grep -vE "test_check_cli_good|test_avm" | wc -l)
 echo "$ID-$N: demo clean rc=$RC_CLEAN, demo patched rc=$RC_PATCHED, tests passed=$PASSED failed=$FAILED unexpected_failures=$FAILNAMES"
 if [ "$RC_CLEAN" = 0 ] && [ "$RC_PATCHED" != 0 ] && [ "$RC_PATCHED" != 124 ] && [ "$PASSED" = 46 ] && [ "$FAILNAMES" = 0 ]; then
-  D="/verif/seeded/$ID-$N"; mkdir -p "$D"
+  D="/verif/seeded/$ID-$DN"; mkdir -p "$D"
   cp "$SRC/patch$N.diff" "$D/patch.diff"; cp "$SRC/demo$N.py" "$D/demo.py"
   /venv/bin/python - "$SRC/meta$N.json" "$D/meta.json" "$ID" "$RC_CLEAN" "$RC_PATCHED" "$PASSED" <<'PY'
 import json, sys
